@@ -267,6 +267,9 @@ class Builder:
         self.used = set()
         for k, d in case['doms']:
             self.vars[k] = let(P, domain=self.domain_of(k, [objs[i] for i in d]), name=f'v{k}')
+        for k, c in case.get('dom_filters', []):
+            # the variable is used through a nested query over it: an(entity(x, c))
+            self.vars[k] = an(entity(self.vars[k], self.cond(c)))
 
     def domain_of(self, k, items):
         return items
